@@ -499,6 +499,13 @@ def make_agent_class():
                     live = [o for o in lst if o.status is not None and o.status.name == "EXECUTABLE"][: a["n"]]
                     t = market.transaction(client=self._client())
                     with t:
+                        # (round 22, C02-n) the same transaction first builds a package of ANOTHER kind: a placement before the
+                        # bulk modifications, optionally executed at once so that the transaction is used a second time
+                        for sub in a.get("lead", ()):
+                            self._place(market, t, dict(sub))
+                            run.res.probes["agent.bulk.lead_place_in_the_same_transaction"] += 1
+                        if a.get("lead") and a.get("lead_exec"):
+                            t.execute()
                         for i, o in enumerate(live):
                             try:
                                 if a["kind"] == "cancel":
